@@ -163,7 +163,7 @@ def explore(mod, cases, workers=None, progress=True):
             results[i] = run_one(mod, c)
         return results
     ctx = mp.get_context("fork")
-    chunk = max(1, min(64, n // (workers * 8)))
+    chunk = getattr(mod, "CHUNK", None) or max(1, min(64, n // (workers * 8)))
     t0 = time.time()
     last = t0
     with ctx.Pool(workers, initializer=_worker_init, initargs=(mod.__name__,)) as pool:
